@@ -40,6 +40,20 @@ impl AdditionalLifecycleEventsSet {
     /// ASSUMPTION carrier (DESIGN 1.3): the state of the wrapped source lives behind the RefCell and is
     /// opaque at this layer, so the call-order preconditions of the wrapped source are assumed here.
     spec fn accepts_calls(&self) -> bool;
+    // ---- monotone history witnesses (ghost, DESIGN 2.12). Each is a fact of the form "this call has been made on
+    // this dispatcher with this outcome". They are produced ONLY by the postconditions of the three methods below and
+    // are never negated, so any interpretation consistent with the call history is a model; a caller (which sees the
+    // dispatcher as `dyn EventDispatcher`) can establish one only by really making the call.
+    /// register(.., tf) returned Ok for a factory with tf.reg() == t
+    spec fn w_registered(&self, t: RegistrationToken) -> bool;
+    /// reregister(.., tf) returned Ok(true) for a factory with tf.reg() == t
+    spec fn w_reregistered(&self, t: RegistrationToken) -> bool;
+    /// unregister(.., t) was called
+    spec fn w_unregister_called(&self, t: RegistrationToken) -> bool;
+    /// unregister(.., t) returned Ok(true)
+    spec fn w_unregistered(&self, t: RegistrationToken) -> bool;
+    /// reregister / unregister returned Ok(false): the source is being dispatched, the request has to be deferred
+    spec fn w_deferred(&self) -> bool;
 //@ endregion
 //@ item src/sources/mod.rs / trait EventDispatcher / fn process_events props=C14
 //@ enditem
@@ -57,6 +71,7 @@ impl AdditionalLifecycleEventsSet {
                 old(additional_lifecycle_register)@.contains(x) || x == old(token_factory).reg(),
             forall|x: RegistrationToken| old(additional_lifecycle_register)@.contains(x) ==> final(additional_lifecycle_register)@.contains(x),
             final(token_factory).reg() == old(token_factory).reg(),
+            r is Ok ==> self.w_registered(old(token_factory).reg()),
 //@ enditem
 //@ item src/sources/mod.rs / trait EventDispatcher / fn reregister props=C14,C15 ret=r
 //@ spec
@@ -70,6 +85,8 @@ impl AdditionalLifecycleEventsSet {
             // deferred (source is being dispatched) or failed: nothing changed
             (r is Err || r == Ok::<bool, crate::Error>(false)) ==> final(additional_lifecycle_register)@ == old(additional_lifecycle_register)@,
             final(token_factory).reg() == old(token_factory).reg(),
+            r == Ok::<bool, crate::Error>(true) ==> self.w_reregistered(old(token_factory).reg()),
+            r == Ok::<bool, crate::Error>(false) ==> self.w_deferred(),
 //@ enditem
 //@ item src/sources/mod.rs / trait EventDispatcher / fn unregister props=C14,C15,C06,C07 ret=r
 //@ spec
@@ -85,6 +102,9 @@ impl AdditionalLifecycleEventsSet {
             final(additional_lifecycle_register)@.contains(registration_token) ==> old(additional_lifecycle_register)@.contains(registration_token),
             // deferred (source is being dispatched) or failed: nothing changed
             (r is Err || r == Ok::<bool, crate::Error>(false)) ==> final(additional_lifecycle_register)@ == old(additional_lifecycle_register)@,
+            self.w_unregister_called(registration_token),
+            r == Ok::<bool, crate::Error>(true) ==> self.w_unregistered(registration_token),
+            r == Ok::<bool, crate::Error>(false) ==> self.w_deferred(),
 //@ enditem
 //@ item src/sources/mod.rs / trait EventDispatcher / fn before_sleep props=C14
 //@ enditem
@@ -99,6 +119,12 @@ impl AdditionalLifecycleEventsSet {
         &&& forall|s: S| #[trigger] s.reregister_req()
         &&& forall|s: S| #[trigger] s.unregister_req()
     }
+    // the witnesses carry no information about a concrete dispatcher (they are abstract for every caller)
+    open spec fn w_registered(&self, t: RegistrationToken) -> bool { true }
+    open spec fn w_reregistered(&self, t: RegistrationToken) -> bool { true }
+    open spec fn w_unregister_called(&self, t: RegistrationToken) -> bool { true }
+    open spec fn w_unregistered(&self, t: RegistrationToken) -> bool { true }
+    open spec fn w_deferred(&self) -> bool { true }
 //@ endregion
 //@ item src/sources/mod.rs / impl EventDispatcher<Data> for RefCell<DispatcherInner<S, F>> / fn process_events props=C14 sigonly
 //@ enditem
